@@ -320,7 +320,9 @@ BOUNDS = {
              'stall, either sign)',
     'thorough': '10 seeded chains of 3..8 elements, horizons 3..6/kappa, halvings dt, dt/2 (N <= 16, 32) and a third halving dt/4 (N = 64) on T1 and T3',
 }
-OUTSIDE = ('the limit dt -> 0 itself (represented by 3-4 halvings); configurations and dt are sampled, not symbolic (a symbolic '
+OUTSIDE = ('self-locking chains (while such a chain is held the motion is not the linear equation the closed form solves; the hold / release '
+           'logic is decided by C13, which caught the seeded change C04-e: release test broken for negative duty); '
+           'the limit dt -> 0 itself (represented by 3-4 halvings); configurations and dt are sampled, not symbolic (a symbolic '
            'kappa*dt makes the trajectory a degree-N polynomial and the oracle transcendental); a scheme that is different but still '
            'first-order accurate with the same leading error is accepted, as the property demands')
 STUBS = sim.STUBS
